@@ -1,6 +1,7 @@
 package main
 
 import (
+	"fmt"
 	"go/token"
 	"go/types"
 
@@ -218,6 +219,14 @@ func clGCTryLock(c *Ctx) {
 	collect := p.Func("nitro", "Nitro", "collectDead")
 	fRun := p.Field("nitro", "Nitro", "isGCRunning")
 	sites := p.AllCallSites(collect)
+	gcFn := p.Func("nitro", "Nitro", "GC")
+	inGC := false
+	for _, s := range sites {
+		if p.sameRoot(s.Parent(), gcFn) {
+			inGC = true
+		}
+	}
+	c.Check(inGC, gcFn, nil, "GC() runs the in-order collector", "GC() no longer collects: retired snapshots are never released")
 	for _, s := range sites {
 		fn := s.Parent()
 		fi := p.Info(fn)
@@ -805,4 +814,163 @@ func clDeleteNodeWinner(c *Ctx) {
 	if n < 5 {
 		undecidedf("DeleteNode: only %d winner-only effects found (expected SetLink x3, FlushSession, gchead/gctail stores)", n)
 	}
+}
+
+// Stitch decision table (C06.b): NewSnapshot is interpreted on a list of three
+// writers, each with an empty or a non-empty garbage list (8 scenarios). The
+// snapshot must receive the head of the first non-empty list, and consecutive
+// non-empty lists must be linked tail -> head, nothing else.
+func clStitchTable(c *Ctx) {
+	p := c.P
+	fn := p.Func("nitro", "Nitro", "NewSnapshot")
+	fHead := p.Field("nitro", "Writer", "gchead")
+	fTail := p.Field("nitro", "Writer", "gctail")
+	fNext := p.Field("nitro", "Writer", "next")
+	fWlist := p.Field("nitro", "Nitro", "wlist")
+	fGclist := p.Field("nitro", "Snapshot", "gclist")
+	setLink := p.Func("skiplist", "Node", "SetLink")
+	type wr struct{ id int }
+	type nd struct {
+		w    int
+		tail bool
+	}
+	var bad []string
+	msg := ""
+	for mask := 0; mask < 8 && msg == ""; mask++ {
+		ws := []*wr{{0}, {1}, {2}}
+		nonEmpty := func(i int) bool { return mask&(1<<uint(i)) != 0 }
+		var links [][2]nd
+		var gclist interface{} = "unset"
+		it := &interp{p: p}
+		handleOf := func(v ival) interface{} { return v.h }
+		it.load = func(chain []*types.Var, root ssa.Value, env map[ssa.Value]ival) (ival, bool) {
+			if len(chain) == 0 {
+				return ival{kind: 'p', h: root}, true
+			}
+			f := chain[len(chain)-1]
+			// whose field? evaluate the base pointer
+			var base ival
+			switch f {
+			case fWlist:
+				return ival{kind: 'p', h: ws[0]}, true
+			case fHead, fTail, fNext:
+				// the FieldAddr's X is the writer pointer value
+				return ival{}, false
+			}
+			_ = base
+			if _, isB := f.Type().Underlying().(*types.Basic); isB {
+				return ival{kind: 'i', i: 0}, true
+			}
+			return ival{kind: 'p', h: f}, true
+		}
+		// loads of writer fields need the base VALUE: intercept through a custom load in call-free way
+		it.loadAddr = func(u *ssa.UnOp, env map[ssa.Value]ival) (ival, bool) {
+			fa, ok := u.X.(*ssa.FieldAddr)
+			if !ok {
+				return ival{}, false
+			}
+			f := fieldVarOf(fa)
+			if f != fHead && f != fTail && f != fNext {
+				return ival{}, false
+			}
+			b := it.val(fa.X, env)
+			w, ok := b.h.(*wr)
+			if !ok {
+				outsidef("writer field read through an unknown base")
+			}
+			switch f {
+			case fNext:
+				if w.id+1 < len(ws) {
+					return ival{kind: 'p', h: ws[w.id+1]}, true
+				}
+				return ival{kind: 'p', h: nil}, true
+			case fHead:
+				if nonEmpty(w.id) {
+					return ival{kind: 'p', h: nd{w.id, false}}, true
+				}
+				return ival{kind: 'p', h: nil}, true
+			default:
+				if nonEmpty(w.id) {
+					return ival{kind: 'p', h: nd{w.id, true}}, true
+				}
+				return ival{kind: 'p', h: nil}, true
+			}
+		}
+		it.call = func(ci *ssa.Call, args []ival, env map[ssa.Value]ival) (ival, bool) {
+			if p.CallsAny(ci, setLink) {
+				a, aok := handleOf(args[0]).(nd)
+				b, bok := handleOf(args[1]).(nd)
+				if !aok || !bok {
+					links = append(links, [2]nd{{-1, false}, {-1, false}})
+				} else {
+					links = append(links, [2]nd{a, b})
+				}
+				return ival{kind: 'u'}, true
+			}
+			// a private helper extracted from NewSnapshot is part of it
+			if p.helperCall(ci) != nil {
+				return ival{}, false
+			}
+			// everything else (statistics merge, counters, list insert, ...) does not take part
+			sig := ci.Call.Signature()
+			if sig.Results().Len() == 0 {
+				return ival{kind: 'u'}, true
+			}
+			if sig.Results().Len() == 1 {
+				if b, ok := sig.Results().At(0).Type().Underlying().(*types.Basic); ok {
+					if b.Info()&types.IsBoolean != 0 {
+						return ival{kind: 'b', b: true}, true
+					}
+					if b.Info()&types.IsInteger != 0 {
+						return ival{kind: 'i', i: 1}, true
+					}
+				}
+				return ival{kind: 'p', h: ci}, true
+			}
+			return ival{}, false
+		}
+		it.ignoreStore = func(st *ssa.Store) bool {
+			if f, _ := addrField(st.Addr); f == fGclist {
+				gclist = it.val(st.Val, it.env).h
+			}
+			return true
+		}
+		var r runResult
+		msg = tryInterp(func() { r = it.Run(fn, fn.Blocks[0], 0, map[ssa.Value]ival{}) })
+		_ = r
+		if msg != "" {
+			break
+		}
+		// reference
+		var wantHead interface{}
+		var wantLinks [][2]nd
+		last := -1
+		for i := 0; i < 3; i++ {
+			if !nonEmpty(i) {
+				continue
+			}
+			if last < 0 {
+				wantHead = nd{i, false}
+			} else {
+				wantLinks = append(wantLinks, [2]nd{{last, true}, {i, false}})
+			}
+			last = i
+		}
+		desc := fmt.Sprintf("writers with garbage: %03b (bit i = writer i)", mask)
+		if gclist != wantHead {
+			bad = append(bad, fmt.Sprintf("%s: snapshot gclist = %v, expected %v", desc, gclist, wantHead))
+		}
+		if fmt.Sprint(links) != fmt.Sprint(wantLinks) {
+			bad = append(bad, fmt.Sprintf("%s: links made %v, expected %v", desc, links, wantLinks))
+		}
+	}
+	if msg != "" {
+		c.Undecided(fn, nil, "stitch decision table", "outside the fragment: "+msg)
+		return
+	}
+	det := ""
+	if len(bad) > 0 {
+		det = bad[0] + " — garbage lists of some writers are dropped or cross-linked: those versions are never collected (or collected twice)"
+	}
+	c.Check(len(bad) == 0, fn, nil, "stitch decision table: snapshot gets the first non-empty list, consecutive non-empty lists are linked tail->head", det)
 }
